@@ -109,6 +109,8 @@ func (e *Enc) encodeTop(fn *ssa.Function, fc *FuncContract, name string) {
 	e.assume("(> " + e.get(st, e.clockComp()) + " 0)")
 	// convention: nil counts as allocated, so "reference is nil or allocated" is a unit fact
 	e.assume(sel(e.get(st, e.allocComp()), "nil"))
+	// no monitor lock is held on entry (unless the contract says "holds")
+	e.assume(eq(e.get(st, e.heldComp()), "((as const (Array Ref Bool)) false)"))
 	entry := st.clone()
 	fr.entry = entry
 	if fc != nil {
